@@ -54,6 +54,7 @@ type FuncContract struct {
 	Extern   bool
 	Pure     bool // no heap effect
 	Locked   []Expr   // mutexes held at entry (and exit)
+	Roles    []string // roles this function acts in (it may assume the rely conditions of that role)
 	Ctor     bool
 	Trusted  bool // body not verified (listed in trusted base)
 	NoEffect bool
@@ -79,6 +80,7 @@ type PureFunc struct {
 }
 
 type Invariant struct {
+	Role string // for rely clauses
 	Pkg      string
 	Type     string
 	Recv     string
@@ -122,6 +124,7 @@ type PkgContracts struct {
 	Funcs    map[string]*FuncContract
 	Pures    map[string]*PureFunc
 	Invs     map[string][]*Invariant // by type
+	Relies   map[string][]*Invariant // by type; Role = role that may assume it
 	Ghosts   map[string][]GhostField // by type
 	Fields   []FieldDecl
 	Monitors map[string]*MonitorDecl
@@ -298,6 +301,26 @@ func loadContractsFile(pkgPath, dir, file string) (*PkgContracts, error) {
 			}
 			pc.Invs[m[2]] = append(pc.Invs[m[2]], &Invariant{Pkg: pkgPath, Type: m[2], Recv: m[1], Name: m[3], E: e, Src: m[4], Line: rc.line})
 			cur = nil
+		case "rely":
+			// rely (q *T) role.name: two-state expr   (old(..) = the state this thread saw last)
+			m := regexp.MustCompile(`^\((\w+)\s+\*?(\w+)\)\s+(\w+)\.([\w.]+)\s*:\s*(.*)$`).FindStringSubmatch(rest)
+			if m == nil {
+				return nil, fail(rc.line, "rely: want `rely (r *T) role.name: expr`")
+			}
+			e, err := ParseExpr(m[5])
+			if err != nil {
+				return nil, fail(rc.line, "%v", err)
+			}
+			if pc.Relies == nil {
+				pc.Relies = map[string][]*Invariant{}
+			}
+			pc.Relies[m[2]] = append(pc.Relies[m[2]], &Invariant{Pkg: pkgPath, Type: m[2], Recv: m[1], Role: m[3], Name: m[4], E: e, Src: m[5], Line: rc.line})
+			cur = nil
+		case "role":
+			if cur == nil {
+				return nil, fail(rc.line, "role outside func")
+			}
+			cur.Roles = append(cur.Roles, strings.Fields(rest)...)
 		case "func", "extern", "trusted", "lemma", "env":
 			hdr := rest
 			if kw != "func" {
